@@ -622,6 +622,13 @@ Proof.
   repeat split; try (repeat constructor; simpl; lia); vm_compute; reflexivity.
 Qed.
 
+(* the code as it is now: a vacuum input first, under a mask with an explicit n that needs more photons than n, leaves
+   an empty level-0 array behind (the mask instance does not change, so nothing is reset): the next input crashes *)
+Definition w_vacuum : list (sop QI) := [OCirc 2 U345; OMask [[Some 2; None]] (Some 1); OIn [0; 0]; OIn [1; 0]].
+Theorem current_vacuum_first_refuted :
+  s_dead (srun (R:=QI) true true w_vacuum) = true /\
+  s_dead (srun (R:=QI) true true (scanon (srun true true w_vacuum))) = false.
+Proof. split; vm_compute; reflexivity. Qed.
 Theorem faithful_refuted_neq : exists (h : list (sop QI)) q, Forall (photonic (R:=QI)) h /\
   sobs false false (srun false false h) q <> sobs false false (srun false false (scanon (srun false false h))) q.
 Proof. exists w_growth, (QAmp [1; 1]). split. apply faithful_refuted. apply differs_neq. apply faithful_refuted. Qed.
@@ -695,11 +702,14 @@ Theorem simulator_evolve_cache_history_free c0 h k d :
   d = sim_dep (fst (krun _ _ _ _ sn_eqb sim_cstep sim_survives sim_dep sim_ready c0 h)) k.
 Proof. apply keyed_query_fresh. exact sn_eqb_eq. exact sim_policy. Qed.
 
-(* Simulator.probs(BasicState) evolves under the mask a previous probs_svd left in the engine *)
-Theorem simulator_probs_refuted :
-  snd (simm_step (simm_run [SmHeralds 1; SmProbsSvd 1 true]) SmProbs) = Some (Some (1%nat, 1%nat)) /\
-  snd (simm_step (simm_run [SmHeralds 1]) SmProbs) = Some None.
+(* before bc7ab4f9 Simulator.probs(BasicState) evolved under the mask a previous probs_svd left in the engine *)
+Theorem simulator_probs_old_code :
+  snd (simm_step false (simm_run false [SmHeralds 1; SmProbsSvd 1 true]) SmProbs) = Some (Some (1%nat, 1%nat)) /\
+  snd (simm_step false (simm_run false [SmHeralds 1]) SmProbs) = Some None.
 Proof. split; reflexivity. Qed.
+(* now: whatever the history, the evolution of probs(BasicState) is computed without a mask *)
+Theorem simulator_probs_unmasked h : snd (simm_step true (simm_run true h) SmProbs) = Some None.
+Proof. reflexivity. Qed.
 
 (* =============================== MPS bond dimension =============================== *)
 Theorem mps_refuted :
